@@ -6,13 +6,15 @@ import (
 	"container/list"
 
 	"github.com/vapourismo/knx-go/knx/cemi"
+	"github.com/vapourismo/knx-go/knx/knxnet"
 )
 
 func init() {
 	verifHarnesses["HarnessC17"] = HarnessC17
 }
 
-// HarnessC17: a = {client: 0 tunnel, 1 router, 2 group layer; k telegrams; consumer: 0 always
+// HarnessC17: a = {client: 0 tunnel, 1 router, 2 group layer, 3 tunnel through handleTunnelReq (UDP),
+// 4 the same in TCP mode; k telegrams; consumer: 0 always
 // waiting, 1 absent during the burst, 2 takes one telegram then stalls}. The server side
 // accepts m1..mk in order; the application must see them in that order.
 func HarnessC17(a []int) {
@@ -33,6 +35,14 @@ func HarnessC17(a []int) {
 	case 1:
 		r := &Router{sock: newVSock(), inbound: make(chan cemi.Message), retainer: list.New()}
 		inbound, push = r.inbound, r.pushInbound
+	case 3, 4:
+		conn := vTunnel(newVSock(), client == 4)
+		conn.channel = 9
+		var seq uint8
+		inbound = conn.inbound
+		push = func(m cemi.Message) {
+			conn.handleTunnelReq(&knxnet.TunnelReq{Channel: 9, SeqNumber: seq, Payload: m}, &seq)
+		}
 	default:
 		inbound = make(chan cemi.Message)
 		push = func(m cemi.Message) { inbound <- m }
@@ -91,7 +101,7 @@ func HarnessC17(a []int) {
 			verifAssert("C17.group.order", id == i+1)
 		case mode == 0:
 			verifAssert("C17.ready.order", id == i+1)
-		case client == 0:
+		case client == 0 || client == 3 || client == 4:
 			verifAssert("C17.tunnel.stalled.order", id == i+1)
 		default:
 			verifAssert("C17.router.stalled.order", id == i+1)
